@@ -226,7 +226,11 @@ func checkC13(rc *Run) error {
 							judgeRead(rc, "wildcard", shape, text, wexpr, out, code, valuesOf(want), valuesOf(getPath(v.DevExpl, p)), valuesOf(getPath(v.DevTrav, p)))
 						}
 					}
-					for _, route := range []struct{ name, expr string }{{"traverse", pe}, {"explode", "explode(.) | " + pe}} {
+					routes := []struct{ name, expr string }{{"traverse", pe}, {"explode", "explode(.) | " + pe}}
+					if want.K != "" && (want.K == "map" || want.K == "seq") && pe != "." {
+						routes = append(routes, struct{ name, expr string }{"explode-subtree", "explode(" + pe + ") | " + pe}) // only the sub-tree is exploded
+					}
+					for _, route := range routes {
 						out, code, err := runYq(dir, "-o=json", "-I0", route.expr, "d.yml")
 						mu.Lock()
 						reads++
